@@ -1,13 +1,103 @@
-(* C01 — proofs about the core-reader model (coq/C01/Model.v). *)
+(* C01 — proofs.  The lemmas live in C01/Core.v (slices, read_at / read_array, cursor, offsets) and
+   C01/Tables.v (table directory, FontRef, binary search, INDEX, loca, VarLenArray, ComputedArray);
+   this file assembles the property-level statements used by C01/Props.v. *)
 From Coq Require Import ZArith List Bool Lia.
 From FV Require Import Lib.RustInt C01.Model.
+From FV Require Export C01.Core C01.Tables.
 Import ListNotations.
 Open Scope Z_scope.
-Ltac Zify.zify_post_hook ::= Z.div_mod_to_equations.
 
-Lemma read_at_total w d off : read_at w d off <> Panic.
+(* every FontData / offset operation: a value, an absence or an error — for EVERY list and EVERY argument *)
+Lemma fontdata_total_lemma : forall d w esz a b off sk s ek e o,
+  read_at w d off <> Panic /\ read_ref_at w d off <> Panic /\ read_array esz d a b <> Panic /\
+  (exists r, fd_slice d sk s ek e = r) /\ (exists r, fd_split_off d off = r) /\ (exists r, fd_take_up_to d off = r) /\
+  resolve_offset o d <> Panic /\ resolve_nullable o d <> Some Panic /\ check_in_bounds d off <> Panic.
 Proof.
-  unfold read_at. destruct (checked_add off w); [|discriminate].
-  destruct (get_range d off z); [|discriminate].
-  unfold ok_or. destruct (scalar_read w l); discriminate.
+  intros. repeat split; eauto using read_at_total, read_ref_at_total, read_array_total, resolve_offset_total,
+    resolve_nullable_total, check_in_bounds_total.
+Qed.
+
+(* every cursor program (any sequence of operations with usize arguments, from any usize position) *)
+Lemma cursor_total_lemma : forall ops c, Forall cop_wf ops -> 0 <= cpos c <= USIZE_MAX ->
+  Forall (fun o => o <> Panic) (snd (crun ops c)) /\ c_finish (fst (crun ops c)) <> Panic.
+Proof.
+  intros ops c W H. destruct (crun_mono ops c W H) as (_ & _ & F). split; [exact F|].
+  unfold c_finish. apply check_in_bounds_total.
+Qed.
+
+Lemma cursor_monotone_lemma : forall ops c, Forall cop_wf ops -> 0 <= cpos c <= USIZE_MAX ->
+  cpos c <= cpos (fst (crun ops c)) <= USIZE_MAX /\ cdata (fst (crun ops c)) = cdata c.
+Proof. intros ops c W H. destruct (crun_mono ops c W H) as (A & B & _). split; assumption. Qed.
+
+Lemma finish_iff_lemma : forall c, 0 <= cpos c -> (c_finish c = Ok tt <-> cpos c <= blen (cdata c)).
+Proof. exact c_finish_iff. Qed.
+
+(* opening a font and looking up any tag never panics *)
+Lemma font_total_lemma : forall d, valid d ->
+  fontref_new d <> Panic /\ forall f tag, fontref_new d = Ok f -> table_data f tag <> Panic /\ table_range f tag <> Panic.
+Proof.
+  intros d V. split; [apply fontref_new_total; exact V|]. intros f tag H.
+  split; [eapply table_data_total|eapply table_range_total]; eauto.
+Qed.
+
+Lemma index_total_lemma : forall cw d, valid d -> (cw = 2 \/ cw = 4) ->
+  index_read cw d <> Panic /\
+  forall x i, index_read cw d = Ok x -> usize i ->
+    ix_count x <> Panic /\ ix_off_size x <> Panic /\ ix_offsets x <> Panic /\ ix_objdata x <> Panic /\
+    index_get_offset x i <> Panic /\ index_get x i <> Panic.
+Proof.
+  intros cw d V Hcw. split; [apply index_read_total|]. intros x i H U.
+  destruct (index_getters_ok cw d x V Hcw H) as ((c & Ec & _) & (o & Eo & _) & Eoff & Edat).
+  rewrite Ec, Eo, Eoff, Edat. repeat split; try discriminate.
+  - eapply index_get_offset_total; eauto. destruct U; assumption.
+  - eapply index_get_total; eauto.
+Qed.
+
+Lemma loca_total_lemma : forall d is_long idx, loca_read d is_long <> Panic /\
+  forall l, (exists v, loca_get_raw is_long l idx = Some v) <-> 0 <= idx < Z.of_nat (length l).
+Proof. intros. split; [apply loca_read_total|]. intros l. apply loca_get_raw_spec. Qed.
+
+(* VarLenArray over an item with a Size prefix of sw >= 1 bytes (PString: 1, default impl) *)
+Lemma varlen_default_progress sw d : 1 <= sw -> bytes d ->
+  forall p l, 0 <= p -> read_len_at_default sw d p = Some l -> 1 <= l /\ p < blen d.
+Proof. intros Hs Hb p l Hp H. destruct (read_len_at_default_progress sw Hs d Hb p l Hp H). lia. Qed.
+
+Lemma varlen_iter_steps_lemma : forall sw d, 1 <= sw -> bytes d ->
+  snd (varlen_iter (read_len_at_default sw) (S (length d)) d) = true /\
+  Z.of_nat (length (fst (varlen_iter (read_len_at_default sw) (S (length d)) d))) <= blen d.
+Proof.
+  intros sw d Hs Hb.
+  (* progress is needed for every suffix handed to the iterator, all of which are byte lists *)
+  assert (G : forall fuel dd, bytes dd -> blen dd < Z.of_nat fuel ->
+     snd (varlen_iter (read_len_at_default sw) fuel dd) = true /\
+     Z.of_nat (length (fst (varlen_iter (read_len_at_default sw) fuel dd))) <= blen dd).
+  { induction fuel; intros dd Hd Hf; [pose proof (blen_nonneg dd); lia|].
+    cbn [varlen_iter]. destruct (blen dd =? 0) eqn:E; [cbn; split; [reflexivity|pose proof (blen_nonneg dd); lia]|].
+    destruct (read_len_at_default sw dd 0) as [l|] eqn:R; [|cbn; split; [reflexivity|pose proof (blen_nonneg dd); lia]].
+    destruct (varlen_default_progress sw dd Hs Hd 0 l ltac:(lia) R) as [L1 L2].
+    destruct (get_range dd 0 l) as [item|] eqn:Gt; [|cbn; split; [reflexivity|pose proof (blen_nonneg dd); lia]].
+    destruct (fd_split_off dd l) as [rest|] eqn:S; [|cbn; split; [reflexivity|pose proof (blen_nonneg dd); lia]].
+    assert (Hr : bytes rest).
+    { unfold fd_split_off, get_from in S. apply get_range_some in S. destruct S as (_ & _ & ->). apply sub_bytes, Hd. }
+    apply fd_split_off_some in S; [|lia]. destruct S as [S1 S2].
+    specialize (IHfuel rest Hr ltac:(lia)). destruct (varlen_iter (read_len_at_default sw) fuel rest) as [xs fin].
+    cbn [fst snd length] in *. destruct IHfuel as [I1 I2]. split; [exact I1|lia]. }
+  apply G; [exact Hb|]. unfold blen. lia.
+Qed.
+
+Lemma varlen_get_steps_lemma : forall sw d idx, 1 <= sw -> bytes d -> 0 <= idx ->
+  varlen_get_fast (read_len_at_default sw) d idx = varlen_get (read_len_at_default sw) d idx.
+Proof. intros sw d idx Hs Hb Hi. apply varlen_get_fast_eq; [|exact Hi]. intros p l. apply varlen_default_progress; assumption. Qed.
+
+Lemma computed_iter_steps_lemma : forall item_len d, 0 <= item_len ->
+  let a := computed_new item_len d in
+  snd (computed_iter (S (length d)) a 0) = true /\
+  Z.of_nat (length (fst (computed_iter (S (length d)) a 0))) <= ca_len a /\
+  ca_len a * item_len <= blen d /\ (item_len = 0 -> ca_len a = 0) /\ forall idx, computed_get a idx <> Panic.
+Proof.
+  intros item_len d H a. destruct (computed_new_len item_len d H) as (L0 & L1 & L2). fold a in L0, L1, L2.
+  assert (Hlen : ca_len a <= blen d).
+  { destruct (Z.eq_dec item_len 0) as [E|E]; [rewrite (L2 E); apply blen_nonneg|]. nia. }
+  destruct (computed_iter_bound a L0 (S (length d)) 0 ltac:(lia) ltac:(unfold blen in Hlen; lia)) as [B1 B2].
+  repeat split; auto; try lia. intros idx. apply computed_get_total.
 Qed.
